@@ -28,6 +28,11 @@ Definition enc (A : Type) := A -> option bytes.
 Definition rt {A} (d : dec A) (e : enc A) : Prop :=
   forall b v rest, d b = Some (v, rest) -> exists bs, e v = Some bs /\ bs ++ rest = b.
 
+(** the other direction: what the encoder produces, followed by anything, decodes to the
+    value encoded and hands the rest back (the encoding is self-delimiting) *)
+Definition tr {A} (e : enc A) (d : dec A) : Prop :=
+  forall v bs rest, e v = Some bs -> d (bs ++ rest) = Some (v, rest).
+
 (** [d'] accepts everything [d] accepts, with the same result *)
 Definition dec_le {A} (d d' : dec A) : Prop := forall b x, d b = Some x -> d' b = Some x.
 
@@ -83,6 +88,15 @@ Section Values.
     (* an external type round-trips whenever its arguments do *)
     ok_opaque : forall head (ds : list (dec val)) (es : list (enc val)),
         Forall2 rt ds es -> rt (odec P head ds) (oenc P head es) }.
+
+  (** for the converse direction (the encoder's output decodes) *)
+  Record prims_rev (P : prims) : Prop := mk_prims_rev {
+    rev_prim : forall p, tr (penc P p) (pdec P p);
+    rev_compact : forall p, tr (cenc P p) (cdec P p);
+    rev_len : tr (lenc P) (ldec P);
+    rev_bits : forall st or, tr (benc P st or) (bdec P st or);
+    rev_opaque : forall head (es : list (enc val)) (ds : list (dec val)),
+        Forall2 tr es ds -> tr (oenc P head es) (odec P head ds) }.
 
   (** only for the depth-monotonicity lemma: an external decoder uses the decoders of its
       arguments as black boxes, so it accepts more when they do *)
@@ -284,7 +298,7 @@ Arguments pdec {pv bv ov}. Arguments penc {pv bv ov}. Arguments cdec {pv bv ov}.
 Arguments cenc {pv bv ov}. Arguments ldec {pv bv ov}. Arguments lenc {pv bv ov}.
 Arguments bdec {pv bv ov}. Arguments benc {pv bv ov}. Arguments odec {pv bv ov}.
 Arguments oenc {pv bv ov}. Arguments mk_prims {pv bv ov}.
-Arguments prims_ok {pv bv ov}. Arguments prims_mono {pv bv ov}.
+Arguments prims_ok {pv bv ov}. Arguments prims_mono {pv bv ov}. Arguments prims_rev {pv bv ov}.
 Arguments dec_all {pv bv ov}. Arguments enc_all {pv bv ov}.
 Arguments dec_rep {pv bv ov}. Arguments enc_rep {pv bv ov}.
 Arguments decode_c {pv bv ov}. Arguments encode_c {pv bv ov}.
